@@ -109,46 +109,73 @@ def wordsFrom (e : Endian) (f : Bytes) (pos : Nat) : Nat → Option (List Nat)
     let r ← wordsFrom e f (pos + 4) n
     pure (w :: r)
 
-/-- Walks the label table; `seen` = addresses of the entries consumed so far. -/
+/-- `n` label-table entries `(address, name offset)` from `pos`. -/
+def pairsFrom (e : Endian) (f : Bytes) (pos : Nat) : Nat → Option (List (Nat × Nat))
+  | 0 => some []
+  | n + 1 => do
+    let a ← wordAt e f pos
+    let o ← wordAt e f (pos + 4)
+    let r ← pairsFrom e f (pos + 8) n
+    pure ((a, o) :: r)
+
+/-- Number of occurrences of the address `x`. -/
+def countAddr (x : Nat) (l : List Nat) : Nat := (l.filter (· = x)).length
+
+/-- Walks the label table; `seen` = addresses of the entries consumed so far.  The `k`-th entry
+of an address must resolve to the `k`-th label of that address. -/
 def checkLabels (enc : Bytes → Option Bytes) (f : Bytes) (K : Content) (textPos : Nat) :
-    List Nat → List Nat → Bool
+    List Nat → List (Nat × Nat) → Bool
   | _, [] => true
-  | seen, addr :: off :: rest =>
-    let k := (seen.filter (· = addr)).length
-    match (K.labelsAt addr)[k]? with
+  | seen, r :: rest =>
+    match (K.labelsAt r.1)[countAddr r.1 seen]? with
     | none => false
     | some name =>
       match enc name with
       | none => false
-      | some b => decide (StrAt f (textPos + off) b) && checkLabels enc f K textPos (addr :: seen) rest
-  | _, [_] => false
+      | some b => decide (StrAt f (textPos + r.2) b) && checkLabels enc f K textPos (r.1 :: seen) rest
 
-/-- Decision procedure for `Conforms` (on well-formed contents).  Returns the first violated
-clause. -/
+/-! The clauses of `Conforms`, one executable check each. -/
+
+def chkData (f : Bytes) (K : Content) : Bool :=
+  (List.range K.data.length).all (fun i => decide (K.covered i) || f[0x20 + i]? == K.data[i]?)
+
+def chkPtrTable (e : Endian) (f : Bytes) (K : Content) : Bool :=
+  match wordsFrom e f (0x20 + K.data.length) K.cells.length with
+  | none => false
+  | some t => t.isPerm K.cells
+
+def chkPtrCells (e : Endian) (f : Bytes) (K : Content) : Bool :=
+  K.pointers.all (fun p => wordAt e f (0x20 + p.1) == some p.2)
+
+def chkStrCells (enc : Bytes → Option Bytes) (e : Endian) (f : Bytes) (K : Content) : Bool :=
+  K.strings.all (fun p =>
+    match wordAt e f (0x20 + p.1), enc p.2 with
+    | some v, some b => decide (K.textStart ≤ v) && decide (StrAt f (0x20 + v) b)
+    | _, _ => false)
+
+def chkLabelTable (enc : Bytes → Option Bytes) (e : Endian) (f : Bytes) (K : Content) : Bool :=
+  match pairsFrom e f (0x20 + K.data.length + 4 * K.cells.length) K.labelCount with
+  | none => false
+  | some lt =>
+    checkLabels enc f K (0x20 + K.textStart) [] lt &&
+    K.labels.all (fun p => countAddr p.1 (lt.map (·.1)) == (K.labelsAt p.1).length)
+
+/-- Decision procedure for `Conforms`.  Returns the first violated clause
+(`Lemmas/SerOracle.lean`: `conformsCheck … = none → Conforms …`). -/
 def conformsCheck (enc : Bytes → Option Bytes) (e : Endian) (f : Bytes) (K : Content) :
     Option String :=
-  if wordAt e f 0 ≠ some f.length then some "header: file size" else
-  if wordAt e f 4 ≠ some K.data.length then some "header: data size" else
-  if wordAt e f 8 ≠ some K.cells.length then some "header: pointer count" else
-  if wordAt e f 12 ≠ some K.labelCount then some "header: label count" else
-  if ¬ (0x20 + K.textStart ≤ f.length) then some "tables outside the file" else
-  if ¬ ((List.range K.data.length).all (fun i => decide (K.covered i) || f[0x20 + i]? == K.data[i]?)) then
-    some "data bytes differ outside annotated cells" else
-  match wordsFrom e f (0x20 + K.data.length) K.cells.length with
-  | none => some "pointer table outside the file"
-  | some t =>
-    if ¬ t.isPerm K.cells then some "pointer table is not the set of annotated cells" else
-    if ¬ K.pointers.all (fun p => wordAt e f (0x20 + p.1) == some p.2) then
-      some "pointer cell does not hold its target" else
-    if ¬ K.strings.all (fun p =>
-        match wordAt e f (0x20 + p.1), enc p.2 with
-        | some v, some b => decide (K.textStart ≤ v) && decide (StrAt f (0x20 + v) b)
-        | _, _ => false) then some "string cell does not resolve to its string in the text section" else
-    match wordsFrom e f (0x20 + K.data.length + 4 * K.cells.length) (2 * K.labelCount) with
-    | none => some "label table outside the file"
-    | some lt =>
-      if ¬ checkLabels enc f K (0x20 + K.textStart) [] lt then
-        some "label table is not an order-preserving interleaving of the labels" else none
+  if !(wordAt e f 0 == some f.length) then some "header: file size" else
+  if !(wordAt e f 4 == some K.data.length) then some "header: data size" else
+  if !(wordAt e f 8 == some K.cells.length) then some "header: pointer count" else
+  if !(wordAt e f 12 == some K.labelCount) then some "header: label count" else
+  if !(decide (0x20 + K.textStart ≤ f.length)) then some "tables outside the file" else
+  if !(chkData f K) then some "data bytes differ outside annotated cells" else
+  if !(chkPtrTable e f K) then some "pointer table is not the set of annotated cells (or outside the file)" else
+  if !(chkPtrCells e f K) then some "pointer cell does not hold its target" else
+  if !(chkStrCells enc e f K) then some "string cell does not resolve to its string in the text section" else
+  if !(chkLabelTable enc e f K) then
+    some "label table is not an order-preserving interleaving of all the labels (or outside the file)"
+  else none
 
 def conformsB (enc : Bytes → Option Bytes) (e : Endian) (f : Bytes) (K : Content) : Bool :=
   (conformsCheck enc e f K).isNone
